@@ -631,8 +631,14 @@ def k_build(chk, drv, dadi, rng, dim, cpus, split=1, job=0, fault=None, n=None, 
         elif dim == 1: items.append('%d=%s' % (r[0], fmt_list(data_of(r[1]).ravel())))
         else: items.append('%d=%s' % (r[0] * G + r[1], fmt_list(data_of(r[2]).ravel())))
     N = G if dim == 1 else G * G
-    out = drv.ask('c17.build %d %s' % (N, ';'.join(items) if items else '-'))
     tag = 'build%dD' % dim
+    # every result must carry the index of the gamma (pair) it was computed for
+    for r in (f.results or []):
+        if isinstance(r, BaseException): continue
+        want = data_of(demo1([1.3, gam[r[0]]], [1, 2], None)) if dim == 1 else data_of(demo2([1.3, gam[r[0]], gam[r[1]]], [1, 2], None))
+        if not np.array_equal(data_of(r[-1]), want):
+            chk.k_bad(tag + ':label', inp, 'result labelled %r is not the spectrum of that gamma' % (r[:dim],), 'spectrum of the labelled gamma', float('inf')); return
+    out = drv.ask('c17.build %d %s' % (N, ';'.join(items) if items else '-'))
     if out.startswith('err '):
         if raised is not None: chk.k_ok(tag + ':error')
         else: chk.k_bad(tag, inp, 'returned a cache', out, float('inf'))
